@@ -61,3 +61,36 @@ Proof.
       unfold keep_other. rewrite orb_false_r. reflexivity.
   - simpl. unfold apply_ops. simpl. symmetry. apply filter_none.
 Qed.
+
+(* ---- SequenceSearchResults.add / remove: what the model's dictionary
+   operations do to the list stored under the key, in the form the
+   translator extracts from the source (Gen/XSequence.v) *)
+From SK Require Import Proofs.Sequence Proofs.SequenceMulti.
+
+Lemma alist_get_absent {A} k (d : list (nat * list A)) :
+  existsb (Nat.eqb k) (keys d) = false -> alist_get k d = [].
+Proof.
+  induction d as [|[k' l] d IH]; simpl; intros H; [reflexivity|].
+  apply orb_false_iff in H. destruct H as [H1 H2].
+  rewrite Nat.eqb_sym in H1. rewrite H1. apply IH. exact H2.
+Qed.
+
+Lemma dict_add_is {A} k (x : A) d :
+  alist_get k (alist_add k x d)
+  = if existsb (Nat.eqb k) (keys d) then alist_get k d ++ [x] else [x].
+Proof.
+  rewrite alist_get_add_same.
+  destruct (existsb (Nat.eqb k) (keys d)) eqn:E; [reflexivity|].
+  rewrite (alist_get_absent _ _ E). reflexivity.
+Qed.
+
+Lemma dict_remove_is k s (d : dict) :
+  alist_get k (alist_update k (filter (keep_other s)) d)
+  = if existsb (Nat.eqb k) (keys d)
+    then filter (fun r => negb (Nat.eqb (fst r) s)) (alist_get k d)
+    else alist_get k d.
+Proof.
+  rewrite alist_get_update_same by reflexivity.
+  destruct (existsb (Nat.eqb k) (keys d)) eqn:E; [reflexivity|].
+  rewrite (alist_get_absent _ _ E). reflexivity.
+Qed.
